@@ -38,6 +38,7 @@ type Check struct {
 	Rules    map[string]string // rule id -> description
 	start    time.Time
 	Extra    map[string]any
+	Quiet    bool // sub-check run on behalf of another property: no output
 }
 
 func NewCheck(p *Prog, id, tier string) *Check {
@@ -60,6 +61,9 @@ func (c *Check) touch(fn *ssa.Function) {
 
 func (c *Check) add(o Ob) {
 	c.Obs = append(c.Obs, o)
+	if c.Quiet {
+		return
+	}
 	tag := o.Status
 	line := fmt.Sprintf("%-9s %s %s", tag, c.ID+"/"+o.Rule, o.Construct)
 	if o.Pos != "" {
@@ -89,6 +93,9 @@ func (c *Check) Undecided(rule, construct, pos, detail string) {
 func (c *Check) Note(format string, a ...any) {
 	s := fmt.Sprintf(format, a...)
 	c.Notes = append(c.Notes, s)
+	if c.Quiet {
+		return
+	}
 	fmt.Println("NOTE      " + c.ID + " " + s)
 }
 
@@ -250,4 +257,30 @@ var trustedBase = []string{
 	"cosmossdk.io/collections iterate in key order; blst, btcd, go-ethereum (goat-geth), kelindar/bitmap behave as documented",
 	"go/types and go/ssa (golang.org/x/tools v0.29.0) model the program correctly; the repository has no build-tagged or cgo files of its own",
 	"each obligation decides a structural necessary condition only; the behavioural property as a whole (all inputs/histories) is NOT decided",
+}
+
+// Depend runs another property's rules quietly and imports the outcome as one obligation per
+// failed sub-obligation (or a single held one): used where a property rests on an invariant
+// that another property's rules establish.
+func (c *Check) Depend(rule, otherID string, f propFunc, onlyRules map[string]bool, why string) {
+	sub := NewCheck(c.p, otherID, c.Tier)
+	sub.Quiet = true
+	f(sub)
+	n, bad := 0, 0
+	for _, o := range sub.Obs {
+		if onlyRules != nil && !onlyRules[o.Rule] {
+			continue
+		}
+		n++
+		if o.Status != "HELD" {
+			bad++
+			c.Violated(rule, "depends-on "+otherID+"/"+o.Rule+" "+o.Construct, o.Pos, why+": "+o.Detail, o.Witness...)
+		}
+	}
+	for f := range sub.fnSeen {
+		c.touch(f)
+	}
+	if bad == 0 {
+		c.Held(rule, "depends-on "+otherID, "", fmt.Sprintf("%d obligations of %s hold (%s)", n, otherID, why))
+	}
 }
